@@ -1,12 +1,64 @@
-(* C02 - No frame written to a connection ever exceeds msize. (theorems being added; see Proofs/ChannelProofs.v) *)
+(* C02 - No frame written to a connection ever exceeds msize.
+   Statements only; proofs in Proofs/ChannelProofs.v.  wf_fcall is the property's premise that the
+   message is wire-representable (encoded length below 2^32); msize ranges over [24, 2^32). *)
 From Coq Require Import List NArith ZArith Bool.
-From P9 Require Import Base.Res Base.Bytes Model.WireTypes Model.Spec9P Model.Wire Model.Channel.
+From P9 Require Import Base.Res Base.Bytes Model.WireTypes Model.Spec9P Model.Wire Model.Channel Proofs.ChannelProofs.
 Import ListNotations.
 Open Scope N_scope.
 
-(* the Tread clamp on its uint32 wrap boundary: count 2^32-1 with msize 8192 becomes 8181 *)
+(* 1. Every write either emits exactly one complete frame whose size field equals its total length,
+      which is at most msize, or emits nothing and reports by how many bytes the message is too long
+      (or nothing at all under a dead context). *)
+Theorem C02_frame : forall msize live f, wf_fcall f = true -> 24 <= msize -> msize < M32 ->
+  (live = false /\ write_fcall msize live f = ([], WCtx)) \/
+  (live = true /\ exists out, write_fcall msize live f = (out, WSent) /\
+      (exists body, out = le 4 (len out) ++ body) /\ len out <= msize) \/
+  (live = true /\ msize < 4 + len (enc_fcall f) /\
+      write_fcall msize live f = ([], WOverflow (4 + len (enc_fcall f) - msize))).
+Proof. exact write_fcall_frame. Qed.
+Print Assumptions C02_frame.
+
+(* 2. A write request that is too long is shortened so that its frame is exactly msize; its data is a
+      prefix of the caller's data and every other field is unchanged. *)
+Theorem C02_twrite : forall msize f, wf_fcall f = true -> fc_type f = T_Twrite -> 24 <= msize -> msize < M32 ->
+  msize < 4 + len (enc_fcall f) ->
+  exists fid off d,
+    fc_fields f = [VF (FInt 4 fid); VF (FInt 8 off); VF (FData d)] /\
+    let f' := {| fc_type := T_Twrite; fc_tag := fc_tag f;
+                 fc_fields := [VF (FInt 4 fid); VF (FInt 8 off); VF (FData (take (msize - 23) d))] |} in
+    write_fcall msize true f = (frame (enc_fcall f'), WSent) /\ len (frame (enc_fcall f')) = msize.
+Proof. exact write_twrite. Qed.
+Print Assumptions C02_twrite.
+
+(* 3. A read request's count is lowered (never raised) so that the largest reply it permits
+      (11 + count bytes) fits in msize, and is left alone when that already holds -- including the
+      counts >= 2^32-11 for which the uint32 arithmetic of the code wraps. *)
+Theorem C02_tread : forall msize f, wf_fcall f = true -> fc_type f = T_Tread -> 24 <= msize -> msize < M32 ->
+  exists fid off c c',
+    fc_fields f = [VF (FInt 4 fid); VF (FInt 8 off); VF (FInt 4 c)] /\
+    write_fcall msize true f =
+      (frame (enc_fcall {| fc_type := T_Tread; fc_tag := fc_tag f;
+                           fc_fields := [VF (FInt 4 fid); VF (FInt 8 off); VF (FInt 4 c')] |}), WSent) /\
+    c' <= c /\ 11 + c' <= msize /\ (11 + c <= msize -> c' = c) /\ (msize < 11 + c -> c' = msize - 11).
+Proof. exact write_tread. Qed.
+Print Assumptions C02_tread.
+
+(* 4. Every other message goes out unmodified or not at all. *)
+Theorem C02_other : forall msize f, wf_fcall f = true -> fc_type f <> T_Tread -> fc_type f <> T_Twrite ->
+  write_fcall msize true f = (frame (enc_fcall f), WSent) \/
+  exists k, write_fcall msize true f = ([], WOverflow k).
+Proof. exact write_other. Qed.
+Print Assumptions C02_other.
+
+(* non-vacuity: the Tread clamp on its uint32 wrap boundary, and an over-long Twrite *)
 Example C02_tread_wrap_example :
   maybe_truncate 8192 {| fc_type := T_Tread; fc_tag := 1; fc_fields := [VF (FInt 4 7); VF (FInt 8 0); VF (FInt 4 4294967295)] |}
   = TOk {| fc_type := T_Tread; fc_tag := 1; fc_fields := [VF (FInt 4 7); VF (FInt 8 0); VF (FInt 4 8181)] |}.
 Proof. vm_compute. reflexivity. Qed.
 Print Assumptions C02_tread_wrap_example.
+
+Example C02_twrite_example :
+  let f := {| fc_type := T_Twrite; fc_tag := 1; fc_fields := [VF (FInt 4 7); VF (FInt 8 0); VF (FData [1;2;3;4;5;6;7;8;9;10])] |} in
+  wf_fcall f = true /\ len (fst (write_fcall 27 true f)) = 27 /\ snd (write_fcall 27 true f) = WSent.
+Proof. vm_compute. repeat split; reflexivity. Qed.
+Print Assumptions C02_twrite_example.
